@@ -50,22 +50,23 @@ def _f(v):
 @st.composite
 def _data(draw, family):
     nmax = draw(st.sampled_from([1, 2, 3, 5, 10, 10, 30, 30, 100, 300]))
+    nmin = min(nmax, draw(st.sampled_from([1, 2, 4, 8])))
     info = {}
     if family == "decades":
         mag = st.floats(-3.0, 12.0).map(lambda e: 10.0 ** e)
         el = st.one_of(st.builds(lambda s, m: s * m, st.sampled_from([1.0, -1.0]), mag),
                        st.floats(-1e3, 1e3), st.just(0.0), st.just(-0.0))
-        vals = draw(st.lists(el, min_size=1, max_size=nmax))
+        vals = draw(st.lists(el, min_size=nmin, max_size=nmax))
         dt = draw(st.sampled_from(["f8", "f8", "f4"]))
     elif family == "pool":
         pool = draw(st.lists(st.one_of(st.floats(-100, 100), st.integers(-5, 5).map(float)),
                              min_size=1, max_size=6))
-        vals = draw(st.lists(st.sampled_from(pool), min_size=1, max_size=nmax))
+        vals = draw(st.lists(st.sampled_from(pool), min_size=nmin, max_size=nmax))
         dt = "f8"
     elif family == "intfloat":
         lo = draw(st.integers(-1000, 1000))
         w = draw(st.sampled_from([1, 3, 10, 40, 1000]))
-        vals = [float(v) for v in draw(st.lists(st.integers(lo, lo + w), min_size=1, max_size=nmax))]
+        vals = [float(v) for v in draw(st.lists(st.integers(lo, lo + w), min_size=nmin, max_size=nmax))]
         dt = draw(st.sampled_from(["f8", "f4"]))
     elif family == "ints":
         dt = draw(st.sampled_from(DTYPES_INT))
@@ -73,12 +74,12 @@ def _data(draw, family):
         lo = draw(st.integers(max(int(ii.min), -2 ** 40), min(int(ii.max), 2 ** 40) - 1))
         w = draw(st.sampled_from([1, 3, 10, 40, 250]))
         hi = min(lo + w, int(ii.max))
-        vals = draw(st.lists(st.integers(lo, hi), min_size=1, max_size=nmax))
+        vals = draw(st.lists(st.integers(lo, hi), min_size=nmin, max_size=nmax))
     elif family == "grid":
         base = draw(st.sampled_from(GRID_BASES))
         step = draw(st.sampled_from(NICE_STEPS))
         kmax = draw(st.sampled_from([2, 5, 12, 40]))
-        ks = draw(st.lists(st.integers(-2, kmax), min_size=1, max_size=nmax))
+        ks = draw(st.lists(st.integers(-2, kmax), min_size=nmin, max_size=nmax))
         vals = [base + k * step for k in ks]
         if draw(st.integers(0, 3)) == 0:
             nud = draw(st.lists(st.sampled_from([0, 0, 1, -1]), min_size=len(vals), max_size=len(vals)))
@@ -88,7 +89,7 @@ def _data(draw, family):
         dt = "f8"
     elif family == "const":
         v = draw(st.one_of(st.floats(-1e6, 1e6), st.integers(-5, 5).map(float)))
-        vals = [v] * draw(st.integers(1, nmax))
+        vals = [v] * draw(st.integers(nmin, nmax))
         dt = "f8"
     else:
         raise AssertionError(family)
@@ -132,7 +133,7 @@ def hist_cases(draw, entry, families):
     lo = float(x64.min()) if vmin is None else vmin
     hi = float(x64.max()) if vmax is None else vmax
     span = hi - lo
-    spec = draw(st.sampled_from(["binsize", "binsize", "nbin"]))
+    spec = draw(st.sampled_from(["binsize", "nbin"]))
     if not span > 0:
         spec = "binsize"
     binsize = nbin = None
